@@ -98,7 +98,19 @@ def _prove(conds, goal, depth=0, level=1, timeout_ms=None, seeds=(0, 7, 23), gro
     extra = []
     skolems = []
     if depth == 0:
+        # conjunctive hypotheses are taken apart (quantified facts inside a conjunction become instantiable);
         # existential hypotheses are replaced by witnesses (named constants, which then serve as instantiation candidates)
+        flat = []
+
+        def _flat(c, d=0):
+            if z3.is_and(c) and d < 6:
+                for ch in c.children():
+                    _flat(ch, d + 1)
+            else:
+                flat.append(c)
+        for c in conds:
+            _flat(c)
+        conds = flat
         conds2 = []
         for c in conds:
             if z3.is_quantifier(c) and c.is_exists():
@@ -262,11 +274,12 @@ def solve(ob, use_cvc5=True, fast=False):
         if r == z3.unknown and fast:
             r, s = _prove(list(ob.conds), ob.goal, level=1, timeout_ms=min(Z3_TIMEOUT_MS, 5_000), seeds=(0,))
         elif r == z3.unknown:    # ... with neighbours, index pairs and nested instances as well, full budget
-            r, s = _prove(list(ob.conds), ob.goal, level=1, seeds=(0,))
-            if r == z3.unknown:  # ... the plain query once more, with the full budget
-                r, s = _check(list(ob.conds) + [z3.Not(ob.goal)], Z3_TIMEOUT_MS, seeds=(0, 7))
+            late = min(Z3_TIMEOUT_MS, 10_000)      # (the late stages share what is left of a bounded budget: an undecided obligation stays cheap)
+            r, s = _prove(list(ob.conds), ob.goal, level=1, timeout_ms=late, seeds=(0,))
+            if r == z3.unknown:  # ... the plain query once more, with a larger budget
+                r, s = _check(list(ob.conds) + [z3.Not(ob.goal)], Z3_TIMEOUT_MS, seeds=(0,))
             if r == z3.unknown:  # ... plus the hypotheses instantiated at the sequence positions and dictionary keys of the path (two rounds)
-                r, s = _prove(list(ob.conds), ob.goal, level=2, seeds=(0, 7))
+                r, s = _prove(list(ob.conds), ob.goal, level=2, timeout_ms=late, seeds=(0,))
     else:
         # reachability checks (cover / canary) only have to rule out vacuity: 'unknown' is acceptable, so they get a short budget
         r, s = _check(list(ob.conds), 2_000)
@@ -299,7 +312,7 @@ def solve(ob, use_cvc5=True, fast=False):
                 f.write(smt)
                 path = f.name
             t0 = time.time()
-            out = subprocess.run([CVC5, "--strings-exp", "--tlimit=20000", path], capture_output=True, text=True, timeout=40)
+            out = subprocess.run([CVC5, "--strings-exp", "--tlimit=10000", path], capture_output=True, text=True, timeout=25)
             os.unlink(path)
             first = out.stdout.strip().splitlines()[0] if out.stdout.strip() else ""
             if first == "unsat":
